@@ -138,9 +138,9 @@ class Oracle:
 # Rust text generation
 # ----------------------------------------------------------------------------
 
-def walker_module(g: Grammar) -> str:
+def walker_module(g: Grammar, extra='') -> str:
     return ('\npub mod verif_walk {\n    #![allow(unused_imports)]\n    use super::*;\n    use crate::{Trace, BoxT};\n'
-            + walker_src(g) + '\n}\n')
+            + walker_src(g) + '\n' + extra + '\n}\n')
 
 
 def inject_shim(rust: str) -> str:
@@ -203,6 +203,161 @@ def walker_src(g: Grammar, G='super::') -> str:
         out.append('}')
     return '\n'.join(out)
 
+
+# ----------------------------------------------------------------------------
+# Reduce-step harnesses: ONE reduction from a stack whose top |rhs| nodes are the minimal trees of
+# the rhs symbols (arbitrary payload bytes).  Covers every rule of any length, which whole-input
+# runs bounded at n <= 4 tokens cannot (e.g. a 13-symbol production).
+# ----------------------------------------------------------------------------
+
+class MinTrees:
+    def __init__(self, g: Grammar):
+        self.g = g
+        self.rules = g.rules()
+        self.types = dict(g.terminals)
+        self.by_lhs = {}
+        for r in self.rules:
+            self.by_lhs.setdefault(r.lhs, []).append(r)
+        # minimal size (number of leaves+nodes) per nonterminal, by fixpoint
+        INF = 10 ** 9
+        size = {nt.name: INF for nt in g.nonterminals}
+        best = {}
+        changed = True
+        while changed:
+            changed = False
+            for r in self.rules:
+                tot = 1
+                for sy in r.rhs:
+                    tot += 1 if sy.kind == 'T' else size[sy.name]
+                    if tot >= INF:
+                        break
+                if tot < size[r.lhs]:
+                    size[r.lhs] = tot; best[r.lhs] = r; changed = True
+        self.size, self.best, self.INF = size, best, INF
+
+    def productive_rule(self, r):
+        return all(sy.kind == 'T' or self.size[sy.name] < self.INF for sy in r.rhs)
+
+    def build_rule(self, r, ctr, G='super::'):
+        """(rust constructor expression, expected trace list) for a node built by rule r; ctr = [next leaf tag]."""
+        fs = r.fieldset
+        trace = [r.index]
+        args = []
+        for f in fs.fields:
+            if f.sym.kind == 'T':
+                ty = self.types[f.sym.name]
+                if ty == '()':
+                    expr = '()'
+                    code = LEAF_UNIT
+                else:
+                    tag = ctr[0]; ctr[0] += 1
+                    expr = 'crate::payload::P { tag: %d, val: vals[%d] }' % (tag, tag)
+                    code = 0x80 + tag
+                if f.used:
+                    trace.append(code)
+                    args.append((f, expr))
+                else:
+                    trace.append(SKIP)
+            else:
+                sub_expr, sub_trace = self.build_rule(self.best[f.sym.name], ctr, G)
+                if f.used:
+                    trace += sub_trace
+                    args.append((f, 'Box::new(%s)' % sub_expr))
+                else:
+                    trace.append(SKIP)
+        path = G + r.type_name + ('::' + r.variant if r.variant else '')
+        if not args:
+            expr = path
+        elif fs.kind == 'named':
+            expr = '%s { %s }' % (path, ', '.join('%s: %s' % (f.name, e) for f, e in args))
+        else:
+            expr = '%s(%s)' % (path, ', '.join(e for f, e in args))
+        return expr, trace
+
+
+def reduce_steps(g: Grammar, e):
+    """Returns (rust text to put inside g::verif_walk, [(rule index, n_payload_leaves, trace_len)])."""
+    M = MinTrees(g)
+    types = M.types
+    tnames = [t for t, _ in g.terminals]
+    out = []
+    meta = []
+    for r in M.rules:
+        if not M.productive_rule(r):
+            continue
+        ctr = [0]
+        pushes = []
+        trace = [r.index]
+        for f in r.fieldset.fields:
+            if f.sym.kind == 'T':
+                ty = types[f.sym.name]
+                if ty == '()':
+                    val = '()'
+                    code = LEAF_UNIT
+                else:
+                    tag = ctr[0]; ctr[0] += 1
+                    val = 'crate::payload::P { tag: %d, val: vals[%d] }' % (tag, tag)
+                    code = 0x80 + tag
+                pushes.append('nodes.push(%s::%s(%s));' % (e.node_enum, f.sym.name, val))
+                trace.append(code if f.used else SKIP)
+            else:
+                sub_expr, sub_trace = M.build_rule(M.best[f.sym.name], ctr)
+                pushes.append('nodes.push(%s::%s(%s));' % (e.node_enum, f.sym.name, sub_expr))
+                if f.used:
+                    trace += sub_trace
+                else:
+                    trace.append(SKIP)
+        nleaves = ctr[0]
+        k = len(r.fieldset.fields)
+        lhs_idx = [nt.name for nt in g.nonterminals].index(r.lhs)
+        body = []
+        body.append('pub fn reduce_step_r%d(vals: &[u8; %d], tr: &mut Trace) -> bool {' % (r.index, max(nleaves, 1)))
+        body.append('    let mut states: Vec<%s> = Vec::new();' % e.state_enum)
+        body.append('    let mut i = 0; while i < %d { states.push(%s::S0); i += 1; }' % (k + 1, e.state_enum))
+        body.append('    let mut nodes: Vec<%s> = Vec::new();' % e.node_enum)
+        body += ['    ' + p_ for p_ in pushes]
+        body.append('    let (node, kind) = pop_and_reduce(&mut states, &mut nodes, %s::R%d);' % (e.rule_enum, r.index))
+        body.append('    assert!(states.len() == 1, "C01 reduce does not pop |rhs| states");')
+        body.append('    assert!(nodes.len() == 0, "C01 reduce does not pop |rhs| nodes");')
+        body.append('    assert!(kind as usize == %d, "C01 reduce returns the wrong nonterminal kind");' % lhs_idx)
+        body.append('    match &node {')
+        body.append('        %s::%s(x) => { walk_%s(x, tr); true }' % (e.node_enum, r.lhs, r.lhs))
+        body.append('        _ => false,')
+        body.append('    }')
+        body.append('}')
+        out.append('\n'.join(body))
+        meta.append((r.index, nleaves, trace))
+    return '\n'.join(out), meta
+
+
+STEP_KANI_SRC = r'''
+static STEP_EXPECT_%(r)d: [u8; %(tl)d] = [%(trace)s];
+
+fn run_reduce_step_%(r)d(vals: [u8; %(nl)d]) {
+    let mut tr = Trace::new();
+    let ok = g::verif_walk::reduce_step_r%(r)d(&vals, &mut tr);
+    assert!(ok, "C02 reduce builds a node of another type");
+    assert!(!tr.overflow && tr.len == %(tl)d, "C02 reduce builds a node with missing or extra children");
+    let mut k = 0;
+    while k < %(tl)d {
+        let e = STEP_EXPECT_%(r)d[k];
+        assert!(tr.code[k] == e, "C02 reduce puts a child into the wrong field (or drops / keeps the wrong one)");
+        if e >= 0x80 && e < 0xFD {
+            assert!(tr.val[k] == vals[(e - 0x80) as usize], "C02 reduce modifies a payload");
+        }
+        k += 1;
+    }
+}
+
+#[cfg(kani)]
+#[kani::proof]
+#[kani::unwind(%(unwind)d)]
+fn e1_reduce_step_r%(r)d() {
+    let vals: [u8; %(nl)d] = kani::any();
+    run_reduce_step_%(r)d(vals);
+    kani::cover!(true, "WITNESS reduce step returns");
+}
+'''
 
 COMMON_SRC = r'''
 pub mod payload {
@@ -418,6 +573,49 @@ fn main() {
     println!("OUTCOME {}", outcome);
 }
 '''
+
+
+def build_step_source(g: Grammar, rust: str, mode='kani'):
+    """Source with one reduce-step harness per (productive) rule.  Returns (text, meta)."""
+    from extract import extract
+    e = extract(rust)
+    steps_src, meta = reduce_steps(g, e)
+    maxrhs = max([len(r.rhs) for r in g.rules()] + [1])
+    trace_cap = max([len(t) for _, _, t in meta] + [1])
+    parts = ['#![allow(dead_code, unused_variables, unused_mut, non_snake_case, unreachable_patterns, unused_imports)]\n']
+    if mode == 'kani':
+        parts.append('pub const SHIM_CAP: usize = %d;\n' % (maxrhs + 3))
+        parts.append(open(os.path.join(os.path.dirname(os.path.dirname(os.path.abspath(__file__))), 'harness', 'e1', 'vstd.rs')).read())
+        parts.append('pub type BoxT<T> = crate::vstd::Box<T>;\n')
+        parts.append('pub mod g {\n' + inject_shim(rust) + walker_module(g, steps_src) + '\n}\n')
+    else:
+        parts.append('pub type BoxT<T> = std::boxed::Box<T>;\n')
+        parts.append('pub mod g {\n' + rust + walker_module(g, steps_src) + '\n}\n')
+    parts.append(common_src(g, trace_cap))
+    out_meta = []
+    for r, nl, trace in meta:
+        parts.append(STEP_KANI_SRC % {'r': r, 'nl': max(nl, 1), 'tl': len(trace), 'trace': ','.join(map(str, trace)),
+                                      'unwind': max(len(trace), maxrhs + 1) + 3})
+        out_meta.append({'rule': r, 'payload_leaves': nl, 'trace_len': len(trace)})
+    if mode == 'native':
+        arms = []
+        for r, nl, trace in meta:
+            arms.append('        %d => { let mut v = [0u8; %d]; for i in 0..%d.min(vals.len()) { v[i] = vals[i]; } run_reduce_step_%d(v); }'
+                        % (r, max(nl, 1), max(nl, 1), r))
+        parts.append('''
+fn main() {
+    // usage: step <rule> <vals comma separated>
+    let a: Vec<String> = std::env::args().collect();
+    let r: usize = a[1].parse().unwrap();
+    let vals: Vec<u8> = if a.len() < 3 || a[2].is_empty() { vec![] } else { a[2].split(',').map(|x| x.parse().unwrap()).collect() };
+    match r {
+%s
+        _ => panic!("no such rule"),
+    }
+    println!("STEP OK");
+}
+''' % '\n'.join(arms))
+    return ''.join(parts), out_meta
 
 
 def build_source(g: Grammar, rust: str, lengths, mode='kani', shim_cap=None, ref=None, split=0):
